@@ -26,7 +26,7 @@ from ..core.rng import sha, stream
 from ..gen import docs as gd
 from ..seams.clock import SimClock
 
-OBSERVED = {"dparse", "mdit", "sphinx", "anchors", "inv_cli", "html5_demo", "wildcard"}
+OBSERVED = {"dparse", "mdit", "sphinx", "anchors", "inv_cli", "html5_demo", "wildcard", "cli_doc"}
 
 
 class Engine:
@@ -151,8 +151,14 @@ class Engine:
             elif k < 0.75:
                 ops.append({"op": "inv_cli", "args": o.choice([[], ["-d", "py"], ["-n", "foo*"], ["-f", "json"],
                                                                 ["-o", "label", "-l", "*.html*"]])})
-            elif k < 0.79:
+            elif k < 0.77:
                 ops.append({"op": "html5_demo", "doc": doc})
+            elif k < 0.79:
+                # the myst-docutils-* command-line entry points, called several times in one process
+                ops.append({"op": "cli_doc", "doc": doc, "writer": o.choice(["pseudoxml", "xml", "html5"]),
+                            "flags": o.choice([[], ["--myst-heading-anchors=2"], ["--myst-enable-extensions=deflist,dollarmath"],
+                                               ["--myst-footnote-sort=no", "--myst-heading-anchors=3"],
+                                               ["--myst-suppress-warnings=myst.header"]])})
             elif k < 0.84:
                 ops.append({"op": "wildcard", "n": o.choice([10, 260, 300, 520]), "salt": o.randint(0, 3)})
             elif k < 0.90:
@@ -603,6 +609,38 @@ def _run_op(op, plan, root, i, state: _State, fresh: bool):  # noqa: C901
         except (Exception, SystemExit) as e:  # noqa: BLE001
             return ("exc", type(e).__name__, buf.getvalue())
         return ("ok", buf.getvalue())
+    if kind == "cli_doc":
+        from myst_parser.parsers import docutils_ as md
+
+        outdir = os.path.join(root, "_cli")
+        os.makedirs(outdir, exist_ok=True)
+        dest, warn = os.path.join(outdir, f"out{i}{'f' if fresh else 'h'}"), os.path.join(outdir, f"warn{i}{'f' if fresh else 'h'}")
+        argv = ["--halt=5", "--report=2", "--traceback", f"--warnings={warn}", *op["flags"],
+                os.path.join(root, op["doc"]), dest]
+        old_conf = os.environ.get("DOCUTILSCONFIG")
+        os.environ["DOCUTILSCONFIG"] = os.devnull  # no site/user configuration files
+        status = "ok"
+        try:
+            try:
+                with contextlib.redirect_stdout(io.StringIO()), contextlib.redirect_stderr(io.StringIO()):
+                    getattr(md, "cli_" + op["writer"])(argv)
+            except SystemExit as e:
+                status = f"exit:{e.code}"
+            except Exception as e:  # noqa: BLE001
+                status = "exc:" + type(e).__name__
+        finally:
+            if old_conf is None:
+                os.environ.pop("DOCUTILSCONFIG", None)
+            else:
+                os.environ["DOCUTILSCONFIG"] = old_conf
+        out = _read(root, os.path.relpath(dest, root)) if os.path.exists(dest) else None
+        wtext = _read(root, os.path.relpath(warn, root)) if os.path.exists(warn) else ""
+        shutil.rmtree(outdir, ignore_errors=True)
+        if op["writer"] == "html5":
+            out = out is not None  # docutils' HTML writer has process-global state of its own (see html5_demo)
+        else:
+            out = sut.canon_sets(sut.scrub(out, root)) if out is not None else None
+        return (status, out, sut.canon_sets(sut.scrub(wtext, root)))
     if kind == "html5_demo":
         from myst_parser.parsers.docutils_ import to_html5_demo
 
